@@ -2,7 +2,7 @@
 """Entry point of every registered check:  python3 tools/check.py <Cnn> [--tier quick|thorough] [--replay file]"""
 import sys, os, json, argparse, re
 sys.path.insert(0, os.path.dirname(os.path.abspath(__file__)))
-import vlib, hashcheck, aescheck, c12check, padcheck, submitcheck
+import vlib, hashcheck, aescheck, c12check, padcheck, submitcheck, resubmitcheck
 
 
 # ----------------------------------------------------------------------------- hash family
@@ -38,6 +38,10 @@ def check_hash(pid, tier, replay=None):
         # T-route: the bookkeeping prefix of every SIMD-family submit (rejections store the error and nothing else; an
         # accepted submit clears it), regenerated from the source and re-proved for all flags / lengths / context states
         submitcheck.obligations(chk, tier)
+    if pid in ("C01", "C06") and not replay:
+        # T-route: the body of the resubmit loop of every SIMD-family context file (which decision it takes in which context
+        # state: hand back complete / stash tail + submit blocks / pad + submit / hand back idle), regenerated and re-proved
+        resubmitcheck.obligations(chk, tier)
     if pid == "C01" and not replay:
         # T-route: hash_pad of every context-layer file, regenerated from the source and re-proved (all totals, all buffers)
         padcheck.obligations(chk, tier)
